@@ -28,7 +28,8 @@ THEOREMS = ["XV.Props.C12." + t for t in (
     "unrep_as_charref", "formatter_terminates", "formatter_hangs_on_trailing_high_surrogate",
     "cdata_split_preserves", "cdata_asis_loses_terminator", "table_faithful", "bestfit_breaks_wellformedness",
     "ensureValid_iff_legal", "serialize_content_reparses", "serialize_idempotent", "serialize_refuses_illformed",
-    "serializer_emits_illformed", "nsfixup_innermost_wins", "nsfixup_binds_all", "nsfixup_no_redundant_declaration")]
+    "serializer_emits_illformed", "nsfixup_innermost_wins", "nsfixup_binds_all", "nsfixup_no_redundant_declaration",
+    "reparse_equal_tree", "reparse_equal_tree_roundtrip", "reparse_cr_in_comment_lost")]
 RULE = ("formatter: strings of 0-14 units drawn from hazard alphabets (markup characters, CR/TAB/LF, ]]>, NEL/LSEP, "
         "C0/C1 controls, Latin-1, non-Latin-1, supplementary pairs, lone surrogates) plus a few > kTmpBufSize strings, "
         "x 4 escape modes x 3 unrep modes x 8 intrinsic encodings (+3 ICU, spec-judged only) x XML 1.0/1.1; "
